@@ -146,8 +146,20 @@ func runC29(c *Ctx) {
 	segTypes := map[string]string{"arg0": c.Const("pkg/private/ctrl/path_mgmt/proto.PathSegType_up"),
 		"arg1": c.Const("pkg/private/ctrl/path_mgmt/proto.PathSegType_core"), "arg2": c.Const("pkg/private/ctrl/path_mgmt/proto.PathSegType_down")}
 	// S1
+	segmentsEnterGraph(c, "S1-every-segment-enters-the-graph")
+	core := segTypes["arg1"]
+	c29Rest(c, pk, core)
+}
+
+// segmentsEnterGraph: every segment of the three input lists is traversed into the
+// graph, under its own type (C29 S1; C28 relies on it for "of the constructions
+// with the same interfaces the one that expires last is kept": a construction
+// that never enters the graph cannot be chosen).
+func segmentsEnterGraph(c *Ctx, rule string) {
+	pk := "private/path/combinator."
+	segTypes := map[string]string{"arg0": c.Const("pkg/private/ctrl/path_mgmt/proto.PathSegType_up"),
+		"arg1": c.Const("pkg/private/ctrl/path_mgmt/proto.PathSegType_core"), "arg2": c.Const("pkg/private/ctrl/path_mgmt/proto.PathSegType_down")}
 	if v := c.View(pk + "newDMG"); v != nil {
-		rule := "S1-every-segment-enters-the-graph"
 		got := map[string]string{}
 		n := 0
 		for _, ci := range v.Calls("(*" + pk + "dmg).traverseSegment") {
@@ -204,7 +216,9 @@ func runC29(c *Ctx) {
 		}
 		c.Check(okTypes, rule, v.Name()+":types", v.Fn.Pos(), fmt.Sprintf("ups/cores/downs enter as up/core/down: %v", got))
 	}
-	core := segTypes["arg1"]
+}
+
+func c29Rest(c *Ctx, pk string, core string) {
 	// S2
 	if v := c.View("(*" + pk + "dmg).traverseSegment"); v != nil {
 		rule := "S2-every-entry-becomes-edges"
